@@ -30,6 +30,12 @@ import (
 
 const blankID = "0x0" // feeder.PreConfirmedBlankIdentifier (the placeholder identifier)
 
+// kfCasmMigration: pending.State.CompiledClassHash does not consult the diff's MigratedClasses, so the
+// state read through a view keeps answering the Poseidon (V1) CASM hash of a class that one of the
+// view's blocks migrated to the blake2s (V2) hash; the canonical state answers V2 once the same
+// diff is stored. While listed as known those reads are not judged (counted as excluded).
+const kfCasmMigration = "c20-pending-state-casm-hash-ignores-migration"
+
 // ---------------------------------------------------------------------------------------------
 // sorted iteration helpers (no map-iteration order in generators or oracles)
 
@@ -604,8 +610,17 @@ func (w *world) finalise(c *content) *gen.Block {
 	}
 	h.EventsBloom = core.EventsBloom(c.rcs)
 	h.Hash, h.GlobalStateRoot, h.Signatures = nil, nil, nil
+	// block-level diff as a sequencer publishes it: a contract deployed and later (another delta)
+	// re-classed inside the same block is one deployment with the final class
+	sq := gen.CloneDiff(c.agg())
+	for a, ch := range sq.ReplacedClasses {
+		if _, ok := sq.DeployedContracts[a]; ok {
+			sq.DeployedContracts[a] = ch
+			delete(sq.ReplacedClasses, a)
+		}
+	}
 	blk := &gen.Block{B: &core.Block{Header: &h, Transactions: []core.Transaction{}, Receipts: []*core.TransactionReceipt{}},
-		SU: &core.StateUpdate{StateDiff: gen.CloneDiff(c.agg())}, Classes: w.declaredBy(c.diffs), Pre: tip.Post, Post: c.end(), Tags: map[string]bool{}}
+		SU: &core.StateUpdate{StateDiff: sq}, Classes: w.declaredBy(c.diffs), Pre: tip.Post, Post: c.end(), Tags: map[string]bool{}}
 	for i := range c.txs {
 		blk.B.Transactions = append(blk.B.Transactions, gen.CloneTx(c.txs[i]))
 		blk.B.Receipts = append(blk.B.Receipts, gen.CloneReceipt(c.rcs[i]))
@@ -1003,12 +1018,8 @@ func (k *stateChecker) compare(where string, r core.StateReader, st *ref.State, 
 		casm, err := r.CompiledClassHash(&sh)
 		k.reads++
 		switch {
-		case declared && cl.MigratedAt >= viewFrom && cl.MigratedAt > 0:
-			// tolerance: a CASM migration inside the view is only exposed through CompiledClassHashV2
-			// (pending.State.CompiledClassHash does not consult MigratedClasses); recorded, not judged.
-			if want := cl.CurrentCasm(); err != nil || !(*felt.Felt)(&casm).Equal(&want) {
-				c.Info("casm-hash-stale-after-migration-in-view")
-			}
+		case declared && cl.MigratedAt >= viewFrom && cl.MigratedAt > 0 && stats.Known(kfCasmMigration):
+			c.Excluded(kfCasmMigration) // class migrated by one of the view's blocks: read not judged
 		case declared:
 			want := cl.CurrentCasm()
 			if err != nil || !(*felt.Felt)(&casm).Equal(&want) {
